@@ -20,7 +20,7 @@ import numpy as np
 
 from . import tlc
 
-KIND_DTYPE = {"i": np.int64, "f": np.float64, "b": np.bool_, "n": np.float64}
+KIND_DTYPE = {"i": np.int64, "f": np.float64, "b": np.bool_, "n": np.float64, "m": np.float64, "c": np.int64}
 
 
 MUTANT = None  # set only by binding_selftest
@@ -75,6 +75,10 @@ def src_array(act):
         data = (2 * (k - 1) + 1 + 2 * salt) / 2.0
     elif act["kind"] == "n":
         data = np.where(k % 4 == 2, np.nan, (2 * ((k - 1) % 5) + 1 + 2 * salt) / 2.0)
+    elif act["kind"] == "c":
+        data = np.full(n, 3 + salt)
+    elif act["kind"] == "m":
+        data = np.where((k * 7) % 5 < 3, np.nan, (2 * ((k - 1) % 5) + 1 + 2 * salt) / 2.0)
     else:
         data = (((k + salt) * 3) % 5 < 2)
     return np.asarray(data).reshape(shape).astype(KIND_DTYPE[act["kind"]])
@@ -154,7 +158,7 @@ def apply_action(mod, act, env, lib):
         op = act["op"]
         axes = tuple(b - 1 for b in act["axes"])
         kw = {}
-        if op in ("argmin", "argmax"):
+        if op in ("argmin", "argmax", "nanargmin", "nanargmax"):
             axis = axes[0]
         else:
             axis = axes
@@ -214,6 +218,18 @@ def apply_action(mod, act, env, lib):
         x = X()
         pw = [(0, 0)] * x.ndim
         pw[act["axis"] - 1] = (act["before"], act["after"])
+        if act["mode"] == "udf":
+            def udf(vector, iaxis_pad_width, iaxis, kwargs):
+                # np.pad's contract: the callable edits its vector IN PLACE (pads set, data part rescaled)
+                lo, hi = iaxis_pad_width
+                n = vector.shape[0]
+                vector[lo:n - hi] *= 2
+                vector[:lo] = 7
+                if hi:
+                    vector[n - hi:] = 7
+                return vector        # dask_array (like dask) uses the return value; NumPy ignores it
+
+            return mod.pad(x, pw, udf)
         return mod.pad(x, pw, mode=act["mode"])
     if a == "Repeat":
         return mod.repeat(X(), act["reps"], axis=act["axis"] - 1)
@@ -246,6 +262,20 @@ def apply_action(mod, act, env, lib):
             out = x.map_blocks(fn, dtype=np.int64 if x.dtype == bool else x.dtype)
         out._verif_blockfn = fn
         return out
+    if a == "BlockFirst":
+        x = X()
+        if lib == "np":
+            out = np.array(x, copy=True)
+            cuts = [np.cumsum([0] + list(c)) for c in act["_chunks"]]
+            if act["mode"] == "half":
+                return np.concatenate([block_half(x[int(lo):int(hi)]) for lo, hi in zip(cuts[0][:-1], cuts[0][1:])] or [x[:0]])
+            for bi in itertools.product(*[range(len(c) - 1) for c in cuts]):
+                sl = tuple(slice(int(c[j]), int(c[j + 1])) for c, j in zip(cuts, bi))
+                out[sl] = block_first(x[sl])
+            return out
+        if act["mode"] == "half":
+            return x.map_blocks(block_half, chunks=(tuple((int(c) + 1) // 2 for c in x.chunks[0]),), dtype=x.dtype)
+        return x.map_blocks(block_first, dtype=x.dtype)
     if a == "MaskSelect":
         x = X()
         return x[x > act["thresh"]]
@@ -253,6 +283,34 @@ def apply_action(mod, act, env, lib):
         return getattr(mod, act["op"])(X())
     if a == "Random":
         return make_random(mod, act)
+    if a == "Overlap":
+        ax, r, mode = act["axis"] - 1, act["depth"], act["boundary"]
+        x = X()
+
+        def stencil(b):
+            # a LOCAL function of radius r: edge-clamped inside whatever block it is given
+            pw = [(0, 0)] * b.ndim
+            pw[ax] = (r, r)
+            p = np.pad(b, pw, mode="edge") if b.shape[ax] > 0 else b
+            n = b.shape[ax]
+            sl = lambda lo: tuple(slice(lo, lo + n) if q == ax else slice(None) for q in range(b.ndim))
+            return p[sl(0)] + p[sl(r)] + p[sl(2 * r)] if n > 0 else b
+
+        if lib == "np":
+            npmode = {"reflect": "symmetric", "periodic": "wrap", "nearest": "edge", "none": "edge", "constant": "constant"}[mode]
+            pw = [(0, 0)] * x.ndim
+            pw[ax] = (r, r)
+            p = np.pad(x, pw, mode=npmode)
+            n = x.shape[ax]
+            sl = lambda lo: tuple(slice(lo, lo + n) if q == ax else slice(None) for q in range(x.ndim))
+            return p[sl(0)] + p[sl(r)] + p[sl(2 * r)]
+        depth = {q: (r if q == ax else 0) for q in range(x.ndim)}
+        boundary = {q: ({"constant": 0}.get(mode, mode) if q == ax else "none") for q in range(x.ndim)}
+        return x.map_overlap(stencil, depth=depth, boundary=boundary, dtype=x.dtype)
+    if a == "Diagonal":
+        return mod.diagonal(X(), offset=act["offset"], axis1=act["axis1"] - 1, axis2=act["axis2"] - 1)
+    if a == "StackMismatch":
+        return mod.stack([env[h - 1] for h in act["xs"]], axis=0)
     if a == "AdvIndex":
         x = X()
         m = act["mode"]
@@ -339,6 +397,16 @@ def rechunk_spec(act):
     if act["form"] == "dict":
         return {i: v for i, v in enumerate(spec) if v is not None}
     return tuple(spec)
+
+
+def block_first(block):
+    """grid-dependent block function (BlockFirst action): subtract the block's first element"""
+    return block - block.ravel()[0] if block.size else block
+
+
+def block_half(block):
+    """block function declared with explicit chunks= (BlockFirst mode "half"): the first half (rounded up) of a 1-D block"""
+    return block[: (block.shape[0] + 1) // 2]
 
 
 def make_blockfn(ax, use, chunks_at_call, ndim):
@@ -591,7 +659,12 @@ def replay_one(beh, grids, observers=(), compute_all=True, opts=None, emit=None)
             gi += 1
             user_src = arr.copy()       # the array "the user passed in": must never change (C10, C11)
             ctx.setdefault("np_src", []).append(user_src)
-            d = make_source(da, user_src, g, (opts or {}).get("source"), ctx)
+            if act["kind"] == "c":
+                # a creation array with a user-pinned name; the name is a function of everything that determines the content
+                d = da.full(tuple(act["shape"]), 3 + act["salt"], chunks=g, dtype="i8",
+                            name="pinned-%d-%s-%s" % (act["salt"], "x".join(map(str, act["shape"])), abs(hash(g)) % 10 ** 8))
+            else:
+                d = make_source(da, user_src, g, (opts or {}).get("source"), ctx)
             da_env.append(d)
             if not last_only:
                 for ob in observers:
@@ -621,6 +694,13 @@ def replay_one(beh, grids, observers=(), compute_all=True, opts=None, emit=None)
                 for ob in observers:
                     ob(ctx, k, act, d, real, problems)
             continue
+        if act.get("placeholder"):
+            # a grid-dependent operation: the reference is NumPy applied per ADVERTISED block of the operand
+            ctx["random"] = True
+            if any(c != c for cs in da_env[act["x"] - 1].chunks for c in cs):
+                problems.append(("declined", f"action {k}: operand has unknown chunk sizes: no reference grid"))
+                break
+            act = dict(act, _chunks=[list(map(int, c)) for c in da_env[act["x"] - 1].chunks])
         expect_err = exp["kind"] == "err"
         inplace = act["a"] in INPLACE
         n0 = len(problems)
@@ -688,7 +768,7 @@ def replay_one(beh, grids, observers=(), compute_all=True, opts=None, emit=None)
         if expect_err:
             # Only indexing is required to raise (C12); where NumPy has no result for another
             # operation the properties say nothing about what dask_array returns.
-            if d_err is None and act["a"] in ("Index", "AdvIndex"):
+            if d_err is None and act["a"] in ("Index", "AdvIndex", "StackMismatch"):
                 problems.append(("invalid-operation-did-not-raise", f"action {k}: {act} returned {got!r}"))
             # later actions never use an err handle (spec guarantees)
             continue
@@ -779,7 +859,7 @@ def _worker(args):
                 case.update(failing_action(beh, detail))
                 out.violations.append((case, clause))
             if emit:
-                ref = {"prog": beh["prog"], "grids": [list(map(list, g)) for g in grids]}
+                ref = {"prog": beh["prog"], "env": beh["env"], "grids": [list(map(list, g)) for g in grids]}
                 for e in emit:
                     e["_ref"] = ref
                 out.events += emit
@@ -803,8 +883,10 @@ def _preload():
     _PRELOADED = True
 
 
-def run_corpus(behaviours, observers=(), max_variants=8, seed=0, procs=16, opts=None):
-    """Replay all behaviours in parallel worker processes; returns merged Outcome."""
+def run_corpus(behaviours, observers=(), max_variants=8, seed=0, procs=16, opts=None, group=None):
+    """Replay all behaviours in parallel worker processes; returns merged Outcome.
+    group: key function; behaviours with equal keys are replayed consecutively by ONE worker process (observers that
+    relate a program to earlier programs of the same process history)."""
     import multiprocessing as mp
 
     from .common import chunk_list
@@ -812,7 +894,17 @@ def run_corpus(behaviours, observers=(), max_variants=8, seed=0, procs=16, opts=
     if not behaviours:
         return Outcome()
     _preload()
-    parts = chunk_list(behaviours, procs * 3 if len(behaviours) > procs * 6 else 1)
+    if group is not None:
+        buckets = {}
+        for b in behaviours:
+            buckets.setdefault(group(b), []).append(b)
+        nparts = procs * 2 if len(behaviours) > procs * 6 else 1
+        parts = [[] for _ in range(nparts)]
+        for bucket in sorted(buckets.values(), key=len, reverse=True):
+            min(parts, key=len).extend(bucket)
+        parts = [p for p in parts if p]
+    else:
+        parts = chunk_list(behaviours, procs * 3 if len(behaviours) > procs * 6 else 1)
     ctx = mp.get_context("fork")
     args = [(p, list(observers), max_variants, seed + i, opts) for i, p in enumerate(parts)]
     if len(parts) == 1:
